@@ -1,5 +1,5 @@
 /- C12 — path decoding and normalisation match the documented semantics. -/
-import HtpModel.Util.Decode
+import HtpModel.Lemmas.Decode
 
 namespace Htp.C12
 open Htp.Decode Htp.Gen
@@ -8,5 +8,19 @@ open Htp.Decode Htp.Gen
     only touches the expected status. Witness "/a\0b" under the default configuration. -/
 theorem C12_raw_nul_counterexample :
     hasFlag (decodePath {} [0x2f, 0x61, 0x00, 0x62] 0 0).2.1 PATH_RAW_NUL = false := by decide
+
+/-- **C12 (never longer)**: for every raw path and every decoder configuration the normalised path - percent/%u decoding, the
+    UTF-8 stage (validation or best-fit conversion) and dot-segment removal - is never longer than the raw path. -/
+theorem C12_never_longer (cfg : Gen.DecoderCfg) (path : Bytes) (flags : Nat) (status : Int) :
+    (pipeline cfg path flags status).1.length ≤ path.length := pipeline_len cfg path flags status
+
+/-- **C12 (stage bounds)**: each stage on its own is length-non-increasing (the generic decoder is the one applied to
+    parameters, user info and fragments). -/
+theorem C12_stage_bounds (cfg : Gen.DecoderCfg) (input : Bytes) (flags : Nat) (status : Int) :
+    (decodePath cfg input flags status).1.length ≤ input.length ∧
+    (urldecodeEx cfg input flags status).1.length ≤ input.length ∧
+    (utf8DecodePath cfg input flags status).1.length ≤ input.length ∧
+    (normalizePath input).length ≤ input.length :=
+  ⟨decodePath_len .., urldecodeEx_len .., utf8DecodePath_len .., normalizePath_len _⟩
 
 end Htp.C12
